@@ -409,3 +409,84 @@ def reach_stage(tier_, key):
     r["model_runs"] = [{"config": x["name"], "distinct_states": x["distinct"], "states_generated": x["generated"], "wall_s": x["wall_s"],
                         "witnesses": len(x["witnesses"])} for x in runs]
     return r
+
+# ---------------------------------------------------------------------------
+# exhaustive guard conformance: the model's guard table vs the implementation's enabled sets
+
+def guard_table_specs(tier_):
+    q = tier_ == "quick"
+    T = []
+    def t(P, ext, buf, unsafe, depth, keys=False):
+        T.append({"P": P, "ext": ext, "buf": buf, "unsafe": unsafe, "depth": depth, "keys": keys})
+    t(0, False, False, False, 4 if q else 5); t(1, False, False, False, 5)
+    t(2, True, False, False, 4 if q else 5); t(3, True, False, False, 4 if q else 5)
+    t(4, True, False, False, 4 if q else 5); t(5, True, True, False, 5 if q else 6)
+    t(5, False, False, False, 4); t(5, True, True, True, 4); t(1, False, False, True, 4)
+    t(5, True, True, False, 3, True); t(1, False, False, False, 3, True); t(0, False, False, False, 3, True)
+    return T
+
+def guard_table(t):
+    """rows of GuardTable.tla for one configuration (depends on the model only)"""
+    name = "gt_P%d_%d%d%d_d%d_%s" % (t["P"], t["ext"], t["buf"], t["unsafe"], t["depth"], "k" if t["keys"] else "e")
+    d = cache_dir(spec_key())
+    path = os.path.join(d, name + ".rows")
+    if os.path.exists(path) and os.path.getsize(path) > 0 and os.environ.get("VERIF_NOCACHE") != "1":
+        return path
+    sd = tlc.stage_dir("gt_" + name)
+    B = lambda b: "TRUE" if b else "FALSE"
+    open(os.path.join(sd, "gt.cfg"), "w").write("SPECIFICATION Spec\nCONSTANTS\n  OneByte = 256\n  Pinned = FALSE\n  TP = %d\n  TExt = %s\n  TBuf = %s\n  TUnsafe = %s\n  TDepth = %d\n  TKeys = %s\nINVARIANT Row\nCHECK_DEADLOCK FALSE\n"
+        % (t["P"], B(t["ext"]), B(t["buf"]), B(t["unsafe"]), t["depth"], "{0}" if t["keys"] else "{}"))
+    rc, out, wall = tlc.run_tlc(sd, "GuardTable.tla", "gt.cfg", workers=2, xmx="8g", timeout=5400, meta="meta_" + name)
+    if "Model checking completed. No error has been found." not in out:
+        raise ToolError("GuardTable failed for %s:\n%s" % (name, out[-2000:]))
+    rows = [l for l in out.split("\n") if l.startswith('<<"ROW"')]
+    tmp = path + ".tmp%d" % os.getpid()
+    open(tmp, "w").write("\n".join(rows) + "\n"); os.replace(tmp, path)
+    return path
+
+def guard_tables(tier_):
+    from concurrent.futures import ThreadPoolExecutor
+    specs = guard_table_specs(tier_)
+    with ThreadPoolExecutor(max_workers=6) as ex:
+        paths = list(ex.map(guard_table, specs))
+    return list(zip(specs, paths))
+
+def guards_stage(tier_, key):
+    tabs = guard_tables(tier_)
+    def compute(d):
+        build_harness()
+        seeds = [sub_seed("guards", i) % (1 << 32) for i in range(4)] + [2 ** 64 - 1, 2 ** 64 - 2]
+        specs = []
+        for t, path in tabs:
+            specs.append({"cfg": corpus.cfg(t["P"], 0, 0, ext=t["ext"], buf=t["buf"], unsafe=t["unsafe"]), "table": path, "memo_one": t["keys"], "seeds": seeds,
+                          "tag": "P%d%s%s%s depth<=%d%s" % (t["P"], "+ext" if t["ext"] else "", "+buf" if t["buf"] else "", " unsafe" if t["unsafe"] else "", t["depth"], " memo{0}" if t["keys"] else "")})
+        sf = os.path.join(d, "guard_specs.json"); json.dump(specs, open(sf, "w"))
+        prefix = os.path.join(d, "guards_")
+        p = run([PFV, "guards", sf, prefix], timeout=7200)
+        summary = json.loads(p.stdout.strip().split("\n")[-1])
+        findings, files, drift = [], [], []
+        for s in summary:
+            for m in s["mismatches"]:
+                drift.append({"config": s["tag"], "state": m["stk"], "impl_only": m["impl_only"], "model_only": m["model_only"]})
+            if s["edges"] > 0: files.append((s["file"], s["tag"]))
+            else: os.remove(s["file"])
+        states = 0
+        if files:
+            res = tlc.run_trace_shards("guards", "TraceEdges.tla", "TraceEdges.cfg", [f[0] for f in files], timeout=3600)
+            for (fp, tag), (vals, st, wall) in zip(files, res):
+                states += st["distinct"]
+                lines = open(fp).read().split("\n")
+                for v in vals:
+                    if v and v[0] == "MSGS":
+                        for m in v[1]:
+                            edge = json.loads(lines[m[1] - 1])
+                            findings.append({"kind": m[0], "tag": m[2], "why": m[3] if isinstance(m[3], str) else json.dumps(m[3]), "config": tag,
+                                             "edge": {k: edge[k] for k in ("cfg", "path", "op", "seed", "bytes", "pre", "post")}})
+                os.remove(fp)
+        return {"findings": findings[:1000], "drift": drift[:200],
+                "coverage": {"configs": [{"config": s["tag"], "abstract_states": s["rows"], "constructed_and_compared": s["compared"],
+                                          "not_constructible_in_this_protocol": s["unconstructible"], "enabled_set_mismatches": s["mismatched"]} for s in summary],
+                             "abstract_states_compared": sum(s["compared"] for s in summary), "mismatches": sum(s["mismatched"] for s in summary),
+                             "forced_edges_validated": sum(s["edges"] for s in summary), "tlc_states": states, "exhaustive": True},
+                "samples": [{"config": summary[0]["tag"], "note": "every abstract stack of the configuration is built in the real generator by a canonical recipe and its enabled set compared with the model row"}]}
+    return cached(key, "guards_%s_%d" % (tier_, seed()), compute)
